@@ -14,7 +14,7 @@ use std::time::Instant;
 // The two armies stay in their own thirds of the board (Gold ranks 1-3, Silver ranks 6-8), so no
 // piece is ever adjacent to an enemy: nothing freezes, nothing can be captured.
 pub const DROP_DEPTH_BOUND: usize = 2000;
-const START: &str = "2g\n +-----------------+\n8|               r |\n7|   e   m   h     |\n6|     x     x     |\n5|                 |\n4|                 |\n3|     x     x     |\n2|   M   E   H     |\n1| R               |\n +-----------------+\n   a b c d e f g h\n";
+const START: &str = "2g\n +-----------------+\n8|     c         r |\n7|   e   m   h   d |\n6|     x     x     |\n5|                 |\n4|                 |\n3|     x     x     |\n2|   M   E   H   D |\n1| R   C           |\n +-----------------+\n   a b c d e f g h\n";
 
 pub struct LongGame {
     pub gs: GameState,
@@ -391,13 +391,16 @@ fn long_range_with_retries(n: u64, seed: u64) -> Result<Result<u64, String>, Str
 fn cmd_longrep(prop: &str, tier: &str, seed: u64, out: &str, replay_dir: &str) -> i32 {
     let t0 = Instant::now();
     // even numbers of walking turns so that the last undoing move is Silver's
-    let sizes: &[u64] = if tier == "thorough" { &[6, 200, 2_200, 3_000, 4_400, 6_000, 8_000] } else { &[6, 200, 2_200, 4_400] };
+    let sizes: &[u64] = if tier == "thorough" { &[6, 200, 2_200, 4_400, 17_000, 70_000, 530_000] } else { &[6, 200, 2_200, 17_000, 530_000] };
     let mut exit = 0;
     let mut samples = vec![];
     let mut turns_total = 0u64;
-    for (i, n) in sizes.iter().enumerate() {
+    // one thread per walk length
+    let handles: Vec<_> = sizes.iter().enumerate().map(|(i, n)| {
         let (n, s) = (*n, seed.wrapping_add(i as u64));
-        let h = std::thread::Builder::new().stack_size(64 << 20).spawn(move || long_range_with_retries(n, s)).expect("spawn");
+        (n, s, std::thread::Builder::new().stack_size(64 << 20).spawn(move || long_range_with_retries(n, s)).expect("spawn"))
+    }).collect();
+    for (n, s, h) in handles {
         match h.join() {
             Ok(Ok(Ok(turns))) => {
                 turns_total += turns;
